@@ -264,6 +264,34 @@ def rule_flatten(ctx, r):
             r.check(not stale, c2 + "::current", "a path added to the attribute after the first call shows up in the next call (nothing is memoised per target)",
                     f"after Target.{meth}() was called once, adding '/abs/late' to .{attr} in place is not reflected by the next call ({str(second)[:80]}): the flattened paths "
                     "are memoised per target, so a graph rebuilt after the change keeps the old edges, producers and validation verdict", m.where)
+    # declared paths are file NAMES, taken literally: brackets, `*` and `?` are legal in file names (`counts[raw].txt`, `a*b.txt`) and name exactly that file
+    import fnmatch as _fn
+    import posixpath as _pp
+    odd = ["counts[raw].txt", "a*b.txt", "what?.log", "plain.txt"]
+    disk = ["/proj/" + p_ for p_ in odd] + ["/proj/countsr.txt", "/proj/axxb.txt"]
+
+    def g_glob(pattern, *a, **k):
+        return [f_ for f_ in disk if _fn.fnmatchcase(f_, str(pattern))]
+    interp_g = PureInterp(ctx, hooks={"glob.glob": g_glob, "glob.iglob": lambda p_, *a, **k: iter(g_glob(p_)), "attr:glob": lambda recv, pat: iter(g_glob(_pp.join(str(recv), pat))),
+                                      "os.path.exists": lambda p_: str(p_) in disk, "os.path.isfile": lambda p_: str(p_) in disk, "os.path.lexists": lambda p_: str(p_) in disk})
+    og = Obj("target", **{"__class__": tgt})
+    interp_g._bind_fields(og, tgt, (), {"name": "T", "working_dir": "/proj", "inputs": list(odd), "outputs": list(odd), "protect": set(odd), "options": {}, "spec": "", "group": None})
+    for meth in ("flattened_inputs", "flattened_outputs", "protected"):
+        m = idx.method(tgt, meth)
+        if m is None:
+            continue
+        try:
+            got = interp_g.call(m, (), {}, self_obj=og)
+            got_s = sorted(str(x) for x in got)
+        except Raised as exc:
+            got_s = f"<raises {exc.kind}>"
+        except Unsupported as exc:
+            r.info(f"{tgt.module.relpath}::Target.{meth}::literal-names", f"not evaluated ({exc})")
+            continue
+        want_s = sorted("/proj/" + p_ for p_ in odd)
+        r.check(got_s == want_s, f"{tgt.module.relpath}::Target.{meth}::literal-names", "file names with brackets, `*` and `?` are taken literally",
+                f"Target.{meth} of a target declaring the files {odd} (all of which exist, next to countsr.txt and axxb.txt) yields {got_s}: declared names are treated as "
+                "patterns, so `counts[raw].txt` no longer names itself (a character class that matches `countsr.txt`) - a protected file loses its protection, an output is not the file the target wrote", m.where)
 
 
 def _one_snapshot_structural(ctx, r):
